@@ -32,3 +32,78 @@ fn c20_push_preview_bounded() {
     kani::cover!(target.len() == 5, "nothing truncated");
     core::mem::forget(target);
 }
+
+fn pop_front_forget<T, A: std::alloc::Allocator>(this: &mut std::collections::VecDeque<T, A>) -> Option<T> {
+    if let Some(e) = this.remove(0) {
+        core::mem::forget(e);
+    }
+    None
+}
+
+fn delta_event(seq: u64, ts: u64, bytes: &[u8; 3]) -> Event {
+    let mut s = String::with_capacity(3);
+    s.push_str(unsafe { core::str::from_utf8_unchecked(bytes) });
+    Event { id: String::new(), session_id: String::new(), timestamp_ms: ts, seq, kind: EventKind::OutputTextDelta { delta: s } }
+}
+
+// C20: the fold itself. Two output-text frames with ARBITRARY seqs and timestamps (gaps, repeats, decreasing) and ANY valid
+// 3-byte UTF-8 deltas are folded into a state with a 1-frame window and a 4-byte output cap: no panic (a cut inside a
+// multi-byte character would panic), output text within its cap, window within its capacity, the selected frame is the
+// frame with the selected seq or nothing, derived timings never underflow.
+#[kani::proof]
+#[kani::unwind(8)]
+#[kani::stub(std::collections::VecDeque::pop_front, pop_front_forget)]
+fn c20_update_output_deltas() {
+    let b0: [u8; 3] = kani::any();
+    let b1: [u8; 3] = kani::any();
+    kani::assume(core::str::from_utf8(&b0).is_ok() && core::str::from_utf8(&b1).is_ok());
+    let mut st = TuiState::new(1, 4);
+    st.update(delta_event(kani::any(), kani::any(), &b0));
+    assert!(st.output_text.len() <= 4, "output text exceeds its cap");
+    st.update(delta_event(kani::any(), kani::any(), &b1));
+    assert!(st.output_text.len() <= 4, "output text exceeds its cap");
+    assert!(st.frames.len() <= 1, "frame window exceeds its capacity");
+    if let Some(sel) = st.selected_seq {
+        if let Some(e) = st.selected_event() {
+            assert!(e.seq == sel, "selected frame is a different frame than the selected seq");
+        }
+    }
+    let _ = st.ttft_ms();
+    let _ = st.e2e_ms();
+    kani::cover!(st.output_truncated && b1[0] >= 0xE0, "truncation with a 3-byte character in the tail");
+    kani::cover!(st.selected_event().is_some(), "selected frame found");
+    core::mem::forget(st);
+}
+
+// C20: frames for UNKNOWN tool / task ids and terminal frames without a start are consumed without a crash, from a fresh
+// state (shape = frame type; seq, timestamps, exit codes and durations symbolic; 1-frame window, so the second frame
+// also exercises eviction).
+macro_rules! c20_update_orphan {
+    ($name:ident, $kind:expr) => {
+        #[kani::proof]
+        #[kani::unwind(8)]
+        #[kani::stub(std::collections::VecDeque::pop_front, pop_front_forget)]
+        fn $name() {
+            let mut st = TuiState::new(1, 8);
+            let k1: EventKind = $kind;
+            let k2: EventKind = $kind;
+            st.update(Event { id: String::new(), session_id: String::new(), timestamp_ms: kani::any(), seq: kani::any(), kind: k1 });
+            st.update(Event { id: String::new(), session_id: String::new(), timestamp_ms: kani::any(), seq: kani::any(), kind: k2 });
+            assert!(st.frames.len() <= 1, "frame window exceeds its capacity");
+            assert!(st.output_text.len() <= 8, "output text exceeds its cap");
+            if let Some(sel) = st.selected_seq {
+                if let Some(e) = st.selected_event() {
+                    assert!(e.seq == sel, "selected frame is a different frame than the selected seq");
+                }
+            }
+            let _ = st.e2e_ms();
+            kani::cover!(true, "decided");
+            core::mem::forget(st);
+        }
+    };
+}
+c20_update_orphan!(c20_update_orphan_tool_ended, EventKind::ToolEnded { tool_id: String::from("t"), exit_code: kani::any(), duration_ms: kani::any(), artifacts: None });
+c20_update_orphan!(c20_update_orphan_tool_failed, EventKind::ToolFailed { tool_id: String::from("t"), error: String::from("e") });
+c20_update_orphan!(c20_update_orphan_tool_stdout, EventKind::ToolStdout { tool_id: String::from("t"), chunk: String::from("xy") });
+// (does not finish in 800 s: BTreeMap<String, TaskSummary> entry with merged Option payloads) c20_update_orphan!(c20_update_orphan_task_status, EventKind::ToolTaskStatus { task_id: String::from("k"), status: rip_kernel::ToolTaskStatus::Exited, exit_code: if kani::any() { Some(kani::any()) } else { None }, started_at_ms: if kani::any() { Some(kani::any()) } else { None }, ended_at_ms: if kani::any() { Some(kani::any()) } else { None }, artifacts: None, error: None });
+c20_update_orphan!(c20_update_orphan_session_ended, EventKind::SessionEnded { reason: String::new() });
